@@ -46,12 +46,15 @@ class NodeModel:
 
 	def _check_snakelize(self) -> None:
 		"""our re-implementation must be the one in lang/string.py (compared by the regexes in its return expression)"""
+		from vlib.match import FI, X, calls
 		f = self.idx.mod(STRING_PY).func('snakelize')
-		ret = [n for n in ast.walk(f.node) if isinstance(n, ast.Return)]
-		if len(ret) != 1 or unparse(ret[0].value) != r"re.sub('^[_]+', '', re.sub('([A-Z])', '_\\1', org).lower())":
+		ret = [n for n in ast.walk(FI(f)) if isinstance(n, ast.Return)]
+		param = f.params()[0] if f.params() else 'org'
+		want = r"re.sub('^[_]+', '', re.sub('([A-Z])', '_\\1', %s).lower())" % param
+		if len(ret) != 1 or unparse(ret[0].value) != want:
 			raise AnalysisError(f'lang/string.py:snakelize changed ({unparse(ret[0].value) if ret else "?"}); NodeModel.snakelize must be re-derived')
 		cl = self.node_cls.method('classification')
-		if cl is None or 'snakelize(self.__class__.__name__)' not in unparse(cl.node):
+		if cl is None or not any(unparse(a) == 'self.__class__.__name__' for c in calls(X(cl), 'snakelize') for a in c.args):
 			raise AnalysisError('Node.classification is no longer snakelize(self.__class__.__name__)')
 
 	def classification(self, c: ClassInfo) -> str:
@@ -99,7 +102,9 @@ class NodeModel:
 	def _read_mapping(self) -> tuple[list[tuple[ClassInfo, list[str], int]], ClassInfo]:
 		m = self.idx.mod(RESOLVER_PY)
 		f = m.func('symbol_mapping')
-		dicts = [n for n in ast.walk(f.node) if isinstance(n, ast.keyword) and n.arg == 'symbols' and isinstance(n.value, ast.Dict)]
+		from vlib.match import FI
+		fnode = FI(f)  # locals bound once (e.g. `fallback = defs.Terminal`, `symbols = {...}`) stand for their values
+		dicts = [n for n in ast.walk(fnode) if isinstance(n, ast.keyword) and n.arg == 'symbols' and isinstance(n.value, ast.Dict)]
 		if len(dicts) != 1:
 			raise AnalysisError('providers/syntax/resolver.py: symbols={...} dict literal not found')
 		out = []
@@ -112,7 +117,7 @@ class NodeModel:
 			except ValueError:
 				raise AnalysisError(f'resolver.py: tags of {unparse(k)} are not a literal list')
 			out.append((c, list(tags), k.lineno))
-		fb = [n for n in ast.walk(f.node) if isinstance(n, ast.keyword) and n.arg == 'fallback']
+		fb = [n for n in ast.walk(fnode) if isinstance(n, ast.keyword) and n.arg == 'fallback']
 		fallback = self.idx.resolve_class(m, fb[0].value) if fb else None
 		if fallback is None:
 			raise AnalysisError('resolver.py: fallback class not found')
